@@ -1128,7 +1128,9 @@ class XmlDocument(SubXmlBase):
             mo = member_attrs.max_occurs
             if mo > 1:
                 value = getattr(inst, key, None)
-                if value is None:
+                if value is None or frequencies[key] == 1:
+                    # the first occurrence starts a new list: what the
+                    # instance holds until then is the (shared) default value
                     value = []
 
                 value.append(self.from_element(ctx, member, c))
